@@ -1,10 +1,10 @@
 ID = "C13"
-N_QUICK = 400
+N_QUICK = 240
 N_THOROUGH = 12000
 MODEL_SHOW = "run"
 DISAGREE_IS_VIOLATION = True   # observables are exactly what the property fixes
 RULE = ("exposure stream: every zoo entry (37 registrations - value, pointer, one unnamed struct type - of 33 entry types, "
-        "134 methods) x 7 naming functions (x 3 group options in the thorough tier), two methods per case: HasMethod for "
+        "134 methods) x 7 naming functions x 3 group options (quick: 4 of the 7 naming functions per entry, one group option each), two (quick: four) methods per case: HasMethod for "
         "every declared name renamed/raw/mutated (7 routes per method), GetArgType for the real route, one CallWithSerialize "
         "per method; behaviours stream: every zoo entry x {JSON, protobuf} x method with a context and a message parameter: "
         "7 handler behaviours x with/without completion function, matching/nil/foreign context, undecodable payload, through "
@@ -12,10 +12,16 @@ RULE = ("exposure stream: every zoo entry (37 registrations - value, pointer, on
         "quick); dispatch stream: a real actorex/service.Service with an APIDispatcher over 1-3 collections of entries taking "
         "*RemoteContext (5 configurations x dispatcher orders incl. empty / repeated / unbuilt collection) x every route of "
         "theirs plus unknown / malformed / empty ones x request ids and notifications x 7 behaviours x protobuf bodies "
-        "(good, truncated, invalid, empty), sent as hand-made ServiceRequest messages by a recording peer actor; f4 stream: "
-        "3 (quick) / 9 (thorough) three-op cases addressing a notify-shaped method with a completion function / request id; "
+        "(good, truncated, invalid, empty), sent as hand-made ServiceRequest messages by a recording peer actor; sequence "
+        "stream: per message type (JSON structs with int/string/bool/slice/map/nested-pointer fields, **struct, TestHello) a "
+        "well-formed JSON object with exactly one wrong-typed field and the others good/omitted (rejected after the good fields "
+        "were stored) followed by valid objects with every subset of fields (quick: none, each single one, all), nulls, {} - "
+        "on the same route, another method, another entry; protobuf: every ordered pair of 9 bodies (partial, unknown field, "
+        "wrong wire type, good field then truncation / invalid UTF-8) through CallWithSerialize and through the dispatching "
+        "service; f4 stream: 1 (quick) / 9 (thorough) three-op cases addressing a notify-shaped method with a completion "
+        "function / request id (plus 2 in the corpus); "
         "random: 1-4 registrations (group collisions, register-after-build, no build), 4-15 ops with real / mutated / random "
-        "/ special routes, encoded / malformed / random / empty payloads, nil serializer; every third random case is a "
+        "/ special routes, encoded / field-wise (omitted / good / wrong-typed / null fields) / protobuf-partial / malformed / random / empty payloads, nil serializer; every third random case is a "
         "dispatch case (1-3 collections, random dispatcher order per request). Non-trivial = some HasMethod answered true or "
         "some call / request produced an event (method invocation, completion or response); distinct = distinct op sequences.")
 TRUSTED_BASE = [
@@ -24,8 +30,9 @@ TRUSTED_BASE = [
     "actorex/service/api.go and Service.handleRequest -> C13/Model.v (with hooks/C13-fix-once-guard*.patch and "
     "hooks/C13-fix-request-deserialize.patch applied), measured by this correspondence run",
     "Go harness harness/c13: method descriptors derived with package reflect (Kind, Implements, AssignableTo, method order) "
-    "and a static list for unexported methods; decode oracle = encoding/json and google.golang.org/protobuf called directly; "
-    "Dispatch layer: real Service + recording peer in a local protoactor system, responses classified by ErrCode and the "
+    "and a static list for unexported methods; decode oracle = encoding/json and google.golang.org/protobuf called directly "
+    "into a FRESH value per call; every zoo handler reports a 48-bit FNV-1a token of the canonical rendering of the WHOLE "
+    "argument it was given (all fields; hash collisions are the only way a wrong value could pass); Dispatch layer: real Service + recording peer in a local protoactor system, responses classified by ErrCode and the "
     "'no method' prefix of ErrInfo, actor failure observed as *actor.Restarting; bin/check.py JSON->Coq term printer",
     "modelled not verified: package reflect (Method enumeration in name order, Call's assignability check and its panic), "
     "Go maps (as association lists), recover() catching every panic of the handler goroutine, encoding/json and protobuf "
@@ -55,6 +62,13 @@ LEVEL_TEXT = ("Machine-checked Coq theorems over ALL entry sets, naming function
 
 # ---- known finding F4: completion function passed to a notify-shaped method ----
 def _s(l):
+    if isinstance(l, dict):  # {"U": [[length, 7-byte big-endian chunks...]]}
+        (p,), = l.values()
+        n, out = (p[0] if p else 0), b""
+        for i, x in enumerate(p[1:]):
+            k = min(7, n - 7 * i)
+            out += x.to_bytes(k, "big")
+        return out.decode("latin-1")
     return bytes(l).decode("latin-1")
 
 
@@ -100,7 +114,7 @@ def _resolve(built, route):
         group, nft = o["O"]
         nf = _nf(nft)
         tname = _s(tname)
-        gname = _s(group) if group else nf(tname)
+        gname = _s(group) or nf(tname)
         if gname != g or not (tname[:1] >= "A" and tname[:1] <= "Z") or not any(_shape(m) for m in meths):
             continue
         hit = None
